@@ -42,6 +42,14 @@ muts = sorted(glob.glob(os.path.join(root, 'selftest', 'mutants', '*.patch')))
 neg = [m for m in muts if '-neg-' in m]
 out.append("### 14.4 Must-fail corpus (generated)\n")
 out.append("%d hand-written mutants in selftest/mutants (%d of them negative controls: harmless edits that must stay green). `tools/selftest.sh` applies each to a scratch worktree and requires a VIOLATION for the mutant's property (or exit 0 for a negative control).\n" % (len(muts), len(neg)))
+lr = os.path.join(root, 'selftest', 'last_run.log')
+if os.path.exists(lr):
+    L = open(lr).read().splitlines()
+    c = sum(1 for l in L if l.startswith('SELFTEST') and ': caught:' in l)
+    g = sum(1 for l in L if l.startswith('SELFTEST') and 'stayed green' in l)
+    bad = [l for l in L if l.startswith('SELFTEST') and ': caught:' not in l and 'stayed green' not in l]
+    bindonly = sum(1 for l in L if l.startswith('SELFTEST') and '#generate[' in l)
+    out.append("Last full run (selftest/last_run.log): %d mutants caught, %d negative controls green, %d not as required; %d of the catches name a `bind` obligation first (the others a semantic obligation).\n" % (c, g, len(bad), bindonly))
 text = "\n".join(out) + "\n"
 p = os.path.join(root, 'DESIGN.md')
 s = open(p).read()
